@@ -22,7 +22,6 @@ BOUNDED_RULE = (
 
 def _build_pool(rng, nfmt, per_fmt, for_commands=False):
     """list of request dicts: {spec, fmt, tokens, lenient, fresh(outcome key), sets(bool)}"""
-    from .C02_bounded import _derived_alphabet
     ch = G.RandomChooser(rng)
     pool = []
     formats = []
@@ -42,7 +41,7 @@ def _build_pool(rng, nfmt, per_fmt, for_commands=False):
         formats.append(spec)
     for fi, spec in enumerate(formats):
         fmt = G.build_format(spec)
-        al = _derived_alphabet(spec, rng) + G.SOUP_ALPHABET
+        al = G.derived_alphabet(spec, rng) + G.SOUP_ALPHABET
         lines = []
         while len(lines) < per_fmt:
             A = G.random_assignment(rng, spec, p_given=0.8)
@@ -230,7 +229,10 @@ def bounded(ctx):
     n = 0
     for ids in _sequences(ctx, pool, npairs, 0, nrand):
         reqs = [pool[i] for i in ids]
-        # the shared parser object lives across histories too: that is the situation of an application
+        # every history starts with a new parser object carried by all the command configs (keeps witnesses replayable)
+        shared = G.new_parser()
+        for cmd in commands:
+            cmd.config.set_args_parser(shared)
         pr = _run_history(reqs, via_command, [fresh[i] for i in ids])
         ctx.case(list(ids), nontrivial=len(ids) >= 2 and any(sets[i] for i in ids))
         for sig, what, at in pr:
